@@ -89,7 +89,7 @@ theorem reAlloc_ok (hc : AllocOk c) (hI : Inv h) (i : Nat) (hi : i < h.views.len
     ∃ h', reAlloc c h i ns = .ok h' ∧ Moved h h' i ∧
       h'.view i = ⟨h.blobs.length, 0, (h.view i).len⟩ ∧
       (h'.blob h.blobs.length).size = (h.view i).len ∧ (h'.blob h.blobs.length).cap = c.alloc ns ∧
-      (∀ b, b < h.blobs.length → (h'.blob b).data = (h.blob b).data) := by
+      (∀ b, b < h.blobs.length → (h'.blob b).data = (h.blob b).data) ∧ h'.lockCount h.blobs.length = 1 := by
   have hcont := hI.contents i hi
   have hblen : (bytesOf h (h.view i)).length = (h.view i).len := bytesOf_length hI _ (view_mem h i hi)
   have hcap : (h.view i).len ≤ c.alloc ns := Nat.le_trans hge (hc.ge ns)
@@ -122,7 +122,12 @@ theorem reAlloc_ok (hc : AllocOk c) (hI : Inv h) (i : Nat) (hi : i < h.views.len
       ((((h.withBlob x).setStore i h.blobs.length).setView i ⟨h.blobs.length, 0, (h.view i).len⟩).blob b).data = (h.blob b).data := by
     intro b hb
     rw [(hrp.2.2 b).1, Heap.withBlob_blob_old h x b hb]
-  refine ⟨_, heq, ⟨⟨hrp.1, ?_, ?_⟩, ?_, ?_, ?_⟩, hvi, ?_, ?_, hold⟩
+  have hlock : ((((h.withBlob x).setStore i h.blobs.length).setView i ⟨h.blobs.length, 0, (h.view i).len⟩).blob h.blobs.length).refs = 1 := by
+    rw [(hrp.2.2 h.blobs.length).2.2, hnew, hxr]
+    have hne : ¬ ((h.withBlob x).view i).blob = h.blobs.length := by
+      rw [Heap.withBlob_view]; have := (hI.view i hi).1; omega
+    simp [hne]
+  refine ⟨_, heq, ⟨⟨hrp.1, ?_, ?_⟩, ?_, ?_, ?_⟩, hvi, ?_, ?_, hold, hlock⟩
   · simp [Heap.setStore, Heap.withBlob_views]
   · rw [hrp.2.1, hIp.2]
     have : bytesOf (h.withBlob x) ⟨h.blobs.length, 0, (h.view i).len⟩ = bytesOf h (h.view i) := by
@@ -135,7 +140,7 @@ theorem reAlloc_ok (hc : AllocOk c) (hI : Inv h) (i : Nat) (hi : i < h.views.len
   · intro b hb _
     exact hold b hb
   · simp only [Blob.size, (hrp.2.2 h.blobs.length).1, hnew, hxd, hblen]
-  · rw [(hrp.2.2 h.blobs.length).2, hnew, hxc]
+  · rw [(hrp.2.2 h.blobs.length).2.1, hnew, hxc]
 
 theorem reAlloc_thrown (h : Heap) (i ns : Nat) (hgt : maxSize < ns) : reAlloc c h i ns = .thrown h := by
   unfold reAlloc
